@@ -135,7 +135,7 @@ auto a_swap_ranges(Case const& c) -> std::string
     std::string e;
     {
         Scope sc;
-        auto re = etl::swap_ranges(at<K>(A, 0), at<K>(A, len(c)), at<K>(B, 0));
+        auto re = etl::swap_ranges(at<K>(A, 0), at<K>(A, len(c)), at2<K>(B, 0));
         e       = "ret=" + num(off(B, re)) + " a" + ren(A) + " b" + ren(B);
     }
     return verdict(e, s);
@@ -339,12 +339,14 @@ auto a_partition_copy(Case const& c) -> std::string
 auto table() -> std::vector<Entry> const&
 {
     static std::vector<Entry> const t = {
-        C06_REG(a_remove, "remove", D_VAL, KP),
-        C06_REG(a_remove, "remove", D_VAL, KFE),
-        C06_REG(a_remove_if, "remove_if", D_PRED, KP),
-        C06_REG(a_remove_if, "remove_if", D_PRED, KFE),
+        C06_REG(a_remove, "remove", D_VAL | D_LONG, KP),
+        C06_REG(a_remove, "remove", D_VAL | D_LONG, KFE),
+        C06_REG(a_remove_if, "remove_if", D_PRED | D_LONG, KP),
+        C06_REG(a_remove_if, "remove_if", D_PRED | D_LONG, KFE),
         C06_REG(a_remove_copy, "remove_copy", D_VAL, KP),
         C06_REG(a_remove_copy, "remove_copy", D_VAL, KI),
+        C06_REG(a_remove_copy, "remove_copy", D_VAL, Kpo),
+        C06_REG(a_remove_copy, "remove_copy", D_VAL, Kiq),
         C06_REG(a_remove_copy_if, "remove_copy_if", D_PRED, KP),
         C06_REG(a_remove_copy_if, "remove_copy_if", D_PRED, KI),
         C06_REG(a_replace, "replace", D_VAL, KP),
@@ -353,26 +355,31 @@ auto table() -> std::vector<Entry> const&
         C06_REG(a_replace_if, "replace_if", D_PRED, KF),
         C06_REG(a_swap_ranges, "swap_ranges", D_BSAME, KP),
         C06_REG(a_swap_ranges, "swap_ranges", D_BSAME, KF),
+        C06_REG(a_swap_ranges, "swap_ranges", D_BSAME, Kpf),
+        C06_REG(a_swap_ranges, "swap_ranges", D_BSAME, Kbp),
+        C06_REG(a_swap_ranges, "swap_ranges", D_BSAME, Kfp),
         C06_REG(a_iter_swap, "iter_swap", D_MID | D_N, KP),
         C06_REG(a_iter_swap, "iter_swap", D_MID | D_N, KF),
-        C06_REG(a_reverse, "reverse", 0, KP),
-        C06_REG(a_reverse, "reverse", 0, KB),
+        C06_REG(a_reverse, "reverse", 0 | D_LONG, KP),
+        C06_REG(a_reverse, "reverse", 0 | D_LONG, KB),
         C06_REG(a_reverse_copy, "reverse_copy", 0, KP),
         C06_REG(a_reverse_copy, "reverse_copy", 0, KB),
-        C06_REG(a_rotate, "rotate", D_MID, KP),
-        C06_REG(a_rotate, "rotate", D_MID, KF),
-        C06_REG(a_rotate_copy, "rotate_copy", D_MID, KP),
-        C06_REG(a_rotate_copy, "rotate_copy", D_MID, KF),
-        C06_REG(a_shift_left, "shift_left", D_N, KP),
-        C06_REG(a_shift_left, "shift_left", D_N, KF),
-        C06_REG(a_shift_right, "shift_right", D_N, KP),
-        C06_REG(a_shift_right, "shift_right", D_N, KB),
-        C06_REG(a_unique, "unique", D_EQV, KP),
-        C06_REG(a_unique, "unique", D_EQV, KF),
-        C06_REG(a_unique_copy, "unique_copy", D_EQV, KP),
-        C06_REG(a_unique_copy, "unique_copy", D_EQV, KI),
+        C06_REG(a_rotate, "rotate", D_MID | D_LONG, KP),
+        C06_REG(a_rotate, "rotate", D_MID | D_LONG, KF),
+        C06_REG(a_rotate_copy, "rotate_copy", D_MID | D_LONG, KP),
+        C06_REG(a_rotate_copy, "rotate_copy", D_MID | D_LONG, KF),
+        C06_REG(a_shift_left, "shift_left", D_N | D_LONG, KP),
+        C06_REG(a_shift_left, "shift_left", D_N | D_LONG, KF),
+        C06_REG(a_shift_right, "shift_right", D_N | D_LONG, KP),
+        C06_REG(a_shift_right, "shift_right", D_N | D_LONG, KB),
+        C06_REG(a_unique, "unique", D_EQV | D_LONG, KP),
+        C06_REG(a_unique, "unique", D_EQV | D_LONG, KF),
+        C06_REG(a_unique_copy, "unique_copy", D_EQV | D_LONG, KP),
+        C06_REG(a_unique_copy, "unique_copy", D_EQV | D_LONG, KI),
         C06_REG(a_partition_copy, "partition_copy", D_PRED, KP),
         C06_REG(a_partition_copy, "partition_copy", D_PRED, KI),
+        C06_REG(a_partition_copy, "partition_copy", D_PRED, Kpo),
+        C06_REG(a_partition_copy, "partition_copy", D_PRED, Kiq),
     };
     return t;
 }
